@@ -204,6 +204,18 @@ Theorem C02_cols_select_cols : forall (A D : Type) (sel : colsel) (X : arr A D),
 Proof. exact (@np_cols_select_cols). Qed.
 Print Assumptions C02_cols_select_cols.
 
+(* the carried column count is the real shape[1]: whatever __getitem__ returns -- through any deferred
+   operations, any trailing column selector, 0 rows or more -- every row has exactly a_nc entries, given
+   that the base reader hands out rows of c0 = n_channels entries *)
+Theorem C02_shape_wf : forall (A D : Type) (sem : code -> D -> A -> option A) (dsem : code -> D -> option D)
+    (rows : item -> option (list (list A))) (d0 : D) (c0 : Z) (ops : list op) (it : item) (cols : option colsel)
+    (x : arr A D),
+  (forall R, rows it = Some R -> Forall (fun r => zlen r = c0) R) ->
+  reader_getitem sem dsem rows d0 c0 ops it cols = Some (GRows x) ->
+  Forall (fun r => zlen r = a_nc x) (a_rows x).
+Proof. exact (@reader_getitem_wf). Qed.
+Print Assumptions C02_shape_wf.
+
 (* the regime test of the comparator decides the reading *)
 Theorem C02_row_item_b : forall (sizes : list Z) (it : item), row_item_b sizes it = true <-> row_item sizes it.
 Proof. exact row_item_b_spec. Qed.
